@@ -525,9 +525,14 @@ macro_rules! try_types3 {
     ($a:expr, $b:expr, $c:expr, $acc:expr, $($t:ty),+) => {
         $(
             if let (Ok(x), Ok(y), Ok(z)) = (<$t>::try_from($a), <$t>::try_from($b), <$t>::try_from($c)) {
-                let v = Version::from((x, y, z));
-                let p = Version::parse(format!("{}.{}.{}", $a, $b, $c)).map(|w| enc_version(&w)).unwrap_or("perr".into());
-                $acc.push(format!("{} {} parse={}", enc_version(&v), hex(&v.to_string()), p));
+                // a conversion that panics (e.g. a debug assertion) is an answer of its own, per type
+                match quiet(|| Version::from((x, y, z))) {
+                    Ok(v) => {
+                        let p = Version::parse(format!("{}.{}.{}", $a, $b, $c)).map(|w| enc_version(&w)).unwrap_or("perr".into());
+                        $acc.push(format!("{} {} parse={}", enc_version(&v), hex(&v.to_string()), p));
+                    }
+                    Err(()) => $acc.push(format!("panic-in-{}", stringify!($t))),
+                }
             }
         )+
     };
@@ -536,9 +541,13 @@ macro_rules! try_types4 {
     ($a:expr, $b:expr, $c:expr, $d:expr, $acc:expr, $($t:ty),+) => {
         $(
             if let (Ok(x), Ok(y), Ok(z), Ok(w)) = (<$t>::try_from($a), <$t>::try_from($b), <$t>::try_from($c), <$t>::try_from($d)) {
-                let v = Version::from((x, y, z, w));
-                let p = Version::parse(format!("{}.{}.{}-{}", $a, $b, $c, $d)).map(|w| enc_version(&w)).unwrap_or("perr".into());
-                $acc.push(format!("{} {} parse={}", enc_version(&v), hex(&v.to_string()), p));
+                match quiet(|| Version::from((x, y, z, w))) {
+                    Ok(v) => {
+                        let p = Version::parse(format!("{}.{}.{}-{}", $a, $b, $c, $d)).map(|w| enc_version(&w)).unwrap_or("perr".into());
+                        $acc.push(format!("{} {} parse={}", enc_version(&v), hex(&v.to_string()), p));
+                    }
+                    Err(()) => $acc.push(format!("panic-in-{}", stringify!($t))),
+                }
             }
         )+
     };
